@@ -117,7 +117,10 @@ Check(e) == IF e.op = "W26Intervals" THEN CheckW26(e)
             ELSE IF e.op = "Quiesce" THEN CheckQuiesce(e)
             ELSE IF Has(e, "gate") THEN CheckGate(e)
             ELSE IF Has(e, "kept") THEN CheckKept(e)
-            ELSE IF Has(e.a, "extreme") THEN CheckNoPanic(e)
+            ELSE IF Has(e.a, "extreme")
+              THEN /\ CheckNoPanic(e)
+                   \* C07 "a call is rejected only for these reasons": the caller made sure that none of them applies
+                   /\ (IF Has(e.a, "mustsend") THEN Judge("C07", "RejectedOnlyForTheseReasons", Len(e.sent) = 1, <<e.op, Len(e.sent), e.ret.t>>, "sent") ELSE TRUE)
             ELSE CheckSent(e) /\ CheckReject(e) /\ CheckSegmentRule(e) /\ CheckNoPanic(e) /\ CheckResult(e) /\ CheckRoute(e) /\ CheckDiscovery(e)
 
 TraceNext == l <= Len(Trace) /\ Check(Trace[l]) /\ l' = l + 1
